@@ -569,8 +569,9 @@ GateW(pd, qs, s, adr, m) == GateF(pd, qs, s, adr, m, FALSE)
 Gate(s, adr, m) == GateW(pend, queue, s, adr, m)
 
 \* rule-matched recipients of a client's message: each passes its own gate, refusals are silent
-RuleCopies(W, s, m, adr) ==
-  LET R == RuleRecipients(W, m, s, adr)
+\* D: recipients whose outgoing queue is full (they are not reading): their copy is dropped without a word
+RuleCopiesD(W, s, m, adr, D) ==
+  LET R == RuleRecipients(W, m, s, adr) \ D
       sq == SeqOfSet(R)
       ok(r) == /\ m.ty \in 1..4
                /\ (m.nfd = 0 \/ fdx.cap[r])
@@ -580,12 +581,13 @@ RuleCopies(W, s, m, adr) ==
       RECURSIVE go(_)
       go(i) == IF i > Len(sq) THEN <<>> ELSE one(sq[i]) \o go(i + 1) IN
   go(1)
+RuleCopies(W, s, m, adr) == RuleCopiesD(W, s, m, adr, {})
 
 AutoStart(m) == ((m.fl \div 2) % 2) = 0
 
 \* m0: the message as the client wrote it (legitimate fields only; forged SENDER, unknown fields and
 \* CONTAINER_INSTANCE never survive and are therefore not part of the abstract message)
-SendX(s, m0, rest, full) ==
+SendX(s, m0, rest, full, D) ==
   LET m == [m0 EXCEPT !.snd = IF cst[s] = "active" THEN uname[s] ELSE S_not_active_yet, !.org = s]
       adr == IF m.dst = <<>> THEN NoSlot ELSE Resolve(queue, m.dst) IN
   /\ cst[s] # "absent"
@@ -613,7 +615,7 @@ SendX(s, m0, rest, full) ==
           /\ out' = Capture(Now, m, s, NoSlot) \o FromBus(Now, s, ErrReply(uname[s], m.ser, E_NameHasNoOwner))
           /\ UNCHANGED <<act, cfg, cst, dying, uid, uname, everNames, queue, rules, pend, mon>>
      ELSE IF adr = NoSlot THEN          \* broadcast signal
-          /\ out' = Capture(Now, m, s, NoSlot) \o RuleCopies(Now, s, m, NoSlot)
+          /\ out' = Capture(Now, m, s, NoSlot) \o RuleCopiesD(Now, s, m, NoSlot, D)
           /\ UNCHANGED <<act, cfg, cst, dying, uid, uname, everNames, queue, rules, pend, mon>>
      ELSE LET g == GateF(pend, queue, s, adr, m, full)
               \* a message with descriptors only goes to connections that negotiated descriptor passing; the check
@@ -621,15 +623,17 @@ SendX(s, m0, rest, full) ==
               fdok == m.nfd = 0 \/ fdx.cap[adr] IN
           /\ pend' = g.pd
           /\ out' = Capture(Now, m, s, adr)
-                    \o (IF g.ok /\ fdok THEN <<To(adr, m)>> \o RuleCopies(Now, s, m, adr)
+                    \o (IF g.ok /\ fdok THEN <<To(adr, m)>> \o RuleCopiesD(Now, s, m, adr, D)
                         ELSE FromBus(Now, s, ErrReply(uname[s], m.ser, IF g.ok THEN E_NotSupported ELSE g.err)))
           /\ UNCHANGED <<act, cfg, cst, dying, uid, uname, everNames, queue, rules, mon>>
 
-Send(s, m0, rest) == SendX(s, m0, rest, FALSE)
+Send(s, m0, rest) == SendX(s, m0, rest, FALSE, {})
+\* ... when some rule-matched recipients (D, non-empty) have full queues
+SendDropping(s, m0, rest, D) == D # {} /\ SendX(s, m0, rest, FALSE, D)
 \* the same when the addressed recipient's queue is full (only a recipient that has stopped reading gets there)
 SendFull(s, m0, rest) ==
   /\ m0.dst # <<>> /\ Resolve(queue, m0.dst) # NoSlot /\ cst[s] = "active"
-  /\ SendX(s, m0, rest, TRUE)
+  /\ SendX(s, m0, rest, TRUE, {})
 
 \* KNOWN DEFECT (deviation): a non-signal without destination is handed back to libdbus inside the daemon, which
 \* answers it without any transaction: the reply carries no SENDER at all, its DESTINATION is whatever SENDER
